@@ -5,4 +5,4 @@ Extraction "../build/ml/C04/model.ml" c04_lower c04_label_eq c04_label_cmp c04_l
   c04_label_composed c04_label_lc_composed c04_name_eq c04_name_eq_iter c04_name_cmp c04_name_hash
   c04_composed c04_composed_iter c04_lc_composed c04_parsed_suffix c04_parsed_eq c04_parsed_cmp c04_parsed_hash
   c04_chain_eq c04_chain_cmp c04_chain_lc c04_charstr_eq c04_charstr_cmp c04_charstr_ccmp
-  c04_charstr_hash c04_nsec_ccmp c04_record_ccmp c04_svcb_ccmp c04_unknown_eq c04_unknown_ccmp c04_ipseckey_ccmp c04_ipseckey_none_hash c04_all_unknown_eq c04_all_opt_eq c04_zonemd_partial c04_rrsig_partial c04_nsec3_partial c04_header_cmp c04_header_eq mkHdr c04_rd_kinds c04_rd_eq c04_rd_hash c04_rd_ccmp mkCrec.
+  c04_charstr_hash c04_nsec_ccmp c04_record_ccmp c04_svcb_ccmp c04_unknown_eq c04_unknown_ccmp c04_ipseckey_ccmp c04_ipseckey_none_hash c04_all_unknown_eq c04_all_opt_eq c04_zonemd_partial c04_rrsig_partial c04_nsec3_partial c04_uncertain_eq c04_uncertain_hash UAbs c04_header_cmp c04_header_eq mkHdr c04_rd_cmp c04_rd_partial c04_rd_ccmp_steps c04_rdh c04_rd_kinds c04_rd_eq c04_rd_hash c04_rd_ccmp mkCrec.
